@@ -12,7 +12,7 @@ REQUIRED_MONITORS = ["explicit-order@SSI_mpe", "explicit-order@pLSCF_mpe", "find
 ALL_STATES = ["order:int", "order:list", "mode missing at the order", "nearest pole belongs to another requested mode", "all found", "none found",
               "with covariances", "find_min: qualifying order exists", "find_min: two stable poles in one band at a lower order",
               "find_min: f>1Hz pole between absolute and relative band", "f<1Hz requests"]
-REQUIRED_STATES = ["order 0 requested as a single integer, column 0 holds the pole", "whole-number requests of integer type", "class configured with ordmin > 0", "class-level extraction: empty pole slot above the selected poles", "find_min: unstable pole nearer to the request than the stable one",
+REQUIRED_STATES = ["find_min: two requests with touching bands", "order 0 requested as a single integer, column 0 holds the pole", "whole-number requests of integer type", "class configured with ordmin > 0", "class-level extraction: empty pole slot above the selected poles", "find_min: unstable pole nearer to the request than the stable one",
                    "nearest pole in an rtol^2 sliver at a band edge", "two retained poles in the band, the farther one in an earlier row", "successive mpe calls with different rtol", "order:int", "order:list", "mode missing at the order", "nearest pole belongs to another requested mode", "with covariances",
                    "find_min: qualifying order exists", "find_min: two stable poles in one band at a lower order",
                    "find_min: f>1Hz pole between absolute and relative band"]
@@ -302,7 +302,20 @@ def find_min_one(ctx, rng, name):
     rtol = float(rng.choice([4e-3, 0.01, 0.05]))
     deltaf = 0.05
     nreq = int(rng.integers(1, m + 1))
+    adjacent = name == "ssi" and getattr(run_find_min, "adjacent", False) and m >= 2
+    if adjacent:
+        nreq = max(nreq, 2)
     pick = np.sort(rng.permutation(m)[:nreq])
+    if adjacent:
+        # two requested frequencies whose bands touch without overlapping (ratio between (1+rtol)/(1-rtol) and 1/(1-2 rtol)): each band is relative
+        # to ITS request, so the upper band reaches below the midpoint of the two requests
+        j_ = int(rng.integers(0, nreq - 1))
+        lo_, hi_ = (1 + rtol) / (1 - rtol), 1 / (1 - 2 * rtol)
+        modes = modes.copy()
+        modes[pick[j_ + 1]] = modes[pick[j_]] * (lo_ + (hi_ - lo_) * float(rng.uniform(0.05, 0.9)))
+        for k_ in range(pick[j_ + 1] + 1, len(modes)):
+            modes[k_] = max(modes[k_], modes[k_ - 1] * 1.3)
+        ctx.state("find_min: two requests with touching bands")
     req = [float(modes[k]) for k in pick]
     two_in_band = False
 
@@ -325,6 +338,15 @@ def find_min_one(ctx, rng, name):
             else:
                 Fn[r, o] = f + rng.choice([-1, 1]) * wide * rng.uniform(2.0, 2.5)
                 owner[r, o] = -3
+    if adjacent:
+        # the pole of the upper request sits, at some orders, in the sliver between the lower edge of its band and the midpoint of the two requests
+        f1_, f2_, k2_ = modes[pick[j_]], modes[pick[j_ + 1]], pick[j_ + 1]
+        for o in range(no):
+            rr = np.where(owner[:, o] == k2_)[0]
+            if len(rr) and rng.random() < 0.6:
+                a_, b_ = f2_ * (1 - rtol) * (1 + 1e-6), 0.5 * (f1_ + f2_) * (1 - 1e-6)
+                if a_ < b_:
+                    Fn[rr[0], o] = float(rng.uniform(a_, b_))
     for o in range(1, no):
         for r in range(Fn.shape[0]):
             if np.isfinite(Fn[r, o]):
@@ -575,4 +597,5 @@ def run_case(ctx, case):
     if case["cls"] == "plumbing":
         return plumbing.run_case(ctx, case, gen.rng_of(case), PLUMB_FIELDS)
     rng = gen.rng_of(case)
+    run_find_min.adjacent = case["cls"] == "find_min_tables" and case["k"] % 4 == 2
     {"explicit_tables": run_explicit, "find_min_tables": run_find_min, "real_runs": run_real}[case["cls"]](ctx, rng)
